@@ -4,6 +4,7 @@
 namespace jv {
 
 static const std::vector<std::string> ALL = {"A/bmi2-adx", "A/baseline", "As/static-bmi2", "B/portable64", "C/portable32"};
+static const std::vector<std::string> ALLG = {"A/bmi2-adx", "A/baseline", "As/static-bmi2", "B/portable64", "C/portable32", "G/g++-asm"};
 static const std::vector<std::string> FAST = {"A/bmi2-adx", "A/baseline", "As/static-bmi2", "B/portable64"};
 
 static Batch mk(const std::string& sc, uint64_t runs, const std::vector<std::string>& reps, const std::string& mode = "single", std::map<std::string, int64_t> knobs = {}, const std::string& note = "") {
@@ -48,6 +49,7 @@ bool build_check(const std::string& prop, const std::string& tier, CheckSpec& s,
         s.batches.push_back(mk("wkd", q ? 40 : 2000, FAST, "duo", {{"focus", 15}, {"maxops", 12}}, "marshalling hops by two concurrent caller threads"));
         s.batches.push_back(mk("lq", q ? 40 : 2000, FAST, "duo", {}, "LQ-IBE marshalling by two concurrent caller threads"));
         if (prop == "C17") {
+            register_static_phases(prop, s);
             s.batches.push_back(mk("sample", q ? 100 : 4000, ALL, "single", {}, "samplers, hashing, target-group operations under ASan+UBSan"));
             s.batches.push_back(mk("wkd", q ? 200 : 8000, ALL, "single", {{"focus", 0}}, "every API call sequence of the WKD-IBE properties under ASan+UBSan"));
             s.batches.push_back(mk("enc", q ? 100 : 4000, ALL, "single", {}, "point decode of damaged bytes under ASan+UBSan"));
@@ -82,13 +84,13 @@ bool build_check(const std::string& prop, const std::string& tier, CheckSpec& s,
     }
     if (prop == "C03") {
         s.rule = "case = (primitive op, output aliases first operand?, returned carry/borrow flag) for the register machine; for system histories the cases of the scenario run in lock-step; distinct by that tuple; every case executes on all five replicas with identical inputs and the logs (all written registers, flags, marshalled bytes, stream consumption) must be identical";
-        s.batches.push_back(mk("prim", q ? 1200 : 60000, ALL, "crossrep", {{"ops", q ? 400 : 600}}, "layer 1: register machine over BigInt<384/768/256/512> and FpBase<384/256> primitives with boundary pair constructors, results feeding later ops"));
-        s.batches.push_back(mk("wkd", q ? 80 : 3000, ALL, "crossrep", {{"maxops", 14}}, "layer 2: WKD-IBE histories in lock-step on all replicas, same random stream"));
-        s.batches.push_back(mk("lq", q ? 60 : 2000, ALL, "crossrep", {}, "layer 2: LQ-IBE histories"));
-        s.batches.push_back(mk("sample", q ? 80 : 3000, ALL, "crossrep", {}, "layer 2: samplers, hashing, GT exponentiation (rejection decisions must agree)"));
-        s.batches.push_back(mk("enc", q ? 48 : 1200, ALL, "crossrep", {}, "layer 2: encodings"));
-        s.batches.push_back(mk("pairs", q ? 48 : 1200, ALL, "crossrep", {}, "layer 2: pairing products"));
-        s.batches.push_back(mk("group", q ? 80 : 3000, ALL, "crossrep", {}, "layer 2: group and target-group API"));
+        s.batches.push_back(mk("prim", q ? 1200 : 60000, ALLG, "crossrep", {{"ops", q ? 400 : 600}}, "layer 1: register machine over BigInt<384/768/256/512> and FpBase<384/256> primitives with boundary pair constructors, results feeding later ops"));
+        s.batches.push_back(mk("wkd", q ? 80 : 3000, ALLG, "crossrep", {{"maxops", 14}}, "layer 2: WKD-IBE histories in lock-step on all replicas, same random stream"));
+        s.batches.push_back(mk("lq", q ? 60 : 2000, ALLG, "crossrep", {}, "layer 2: LQ-IBE histories"));
+        s.batches.push_back(mk("sample", q ? 80 : 3000, ALLG, "crossrep", {}, "layer 2: samplers, hashing, GT exponentiation (rejection decisions must agree)"));
+        s.batches.push_back(mk("enc", q ? 48 : 1200, ALLG, "crossrep", {}, "layer 2: encodings"));
+        s.batches.push_back(mk("pairs", q ? 48 : 1200, ALLG, "crossrep", {}, "layer 2: pairing products"));
+        s.batches.push_back(mk("group", q ? 80 : 3000, ALLG, "crossrep", {}, "layer 2: group and target-group API"));
         s.batches.push_back(mk("wkd", q ? 80 : 4000, {"A/bmi2-adx"}, "flipdispatch", {{"maxops", 14}}, "layer 3: the run-time dispatch pointers of replica A are swapped between the BMI2/ADX and baseline routines at seeded yield points inside operations; transcript must equal the undisturbed run"));
         s.batches.push_back(mk("pairs", q ? 60 : 2000, {"A/bmi2-adx"}, "flipdispatch", {}, "layer 3: dispatch flips inside Miller loops"));
         return true;
@@ -113,6 +115,7 @@ bool build_check(const std::string& prop, const std::string& tier, CheckSpec& s,
         register_static_phases(prop, s);
         s.batches.push_back(mk("conc", q ? 400 : 40000, FAST, "single", {}, "2-6 real threads under the serialising seeded scheduler; write trap on the replica image and the shared-input arena; libc traps"));
         s.batches.push_back(mk("conc", q ? 12 : 600, {"C/portable32"}, "single", {}, "32-bit words"));
+        s.batches.push_back(mk("conc", q ? 40 : 2000, {"G/g++-asm"}, "single", {}, "the same sources built with g++"));
         return true;
     }
     err = "no check registered for property " + prop;
